@@ -118,7 +118,13 @@ class Formatter(BasicWalker[Retype]):
 
     def _format_comment(self, comment: str, force_long: bool = False) -> Retype:
         comment = comment.strip()
-        if force_long or "\n" in comment:
+        # without a separator, a text like "[[ x" would open a long comment
+        opens_bracket: bool = (
+            not self.s.COMMENT_SEP
+            and comment.startswith("[")
+            and comment[1:].lstrip("=").startswith("[")
+        )
+        if force_long or "\n" in comment or opens_bracket:
             level: int = self._find_level(comment)
             return [f"--[{'=' * level}[{comment}]{'=' * level}]", Separators.Statement]
         return [f"--{self.s.COMMENT_SEP}{comment}", Separators.Newline]
